@@ -155,6 +155,12 @@ pub fn table() -> &'static Vec<Entry> {
     })
 }
 
+/// arguments for the factorial recurrence: generic values and values 1e-8 … 1e-6 from negative integers
+const RECUR_ARGS: [&str; 30] = [
+    "-5.00000001", "-10.00000002", "-3.000000001", "-2.0000001", "-20.000001", "-4.99999999", "-7.0000002", "-1.00000001", "-2.99999998", "-15.0000001", "-25.000001", "-6.000001", "0.5", "1.5", "2.5", "-0.5", "-1.5", "-2.5", "-3.5",
+    "0.25", "3.75", "-4.25", "7.1", "-7.1", "12.75", "-12.25", "20.5", "-20.5", "0.1", "-0.9",
+];
+
 /// Principal branch of Lambert W by Halley's method from a branch-point series / logarithmic first guess, iterated
 /// until the iterate is stationary. None when it does not settle.
 pub fn ref_w0(x: f64) -> Option<f64> {
@@ -223,7 +229,7 @@ fn grid1(en: &Entry) -> Vec<String> {
         // reference to judge a decimal argument)
         let extra: &[&str] = match en.canon {
             // next to whole numbers: a result snapped to the integer case is off by digamma(n+1)*delta
-            "fact" => &["3.0000000008", "6.0000000009", "20.0000000008", "19.9999999992", "150.0000000009", "100.000000002", "2.999999998", "1.0000000009", "0.9999999991", "10.00000001"],
+            "fact" => &["(-5.00000001)", "(-10.00000002)", "(-3.000000001)", "(-2.0000001)", "(-20.000001)", "(-4.99999999)", "(-7.0000002)", "3.0000000008", "6.0000000009", "20.0000000008", "19.9999999992", "150.0000000009", "100.000000002", "2.999999998", "1.0000000009", "0.9999999991", "10.00000001"],
             // next to the branch point -1/e
             "w" => &["(-0.36783)", "(-0.36785)", "(-0.3678)", "(-0.36781)", "(-0.367)", "(-0.3675)", "(-0.36787)", "(-0.35)", "(-0.3)", "(-0.36)", "(-0.365)"],
             _ => &[],
@@ -413,12 +419,26 @@ impl Prop for C10Prop {
         vec![
             Sub { name: "grid", kind: SubKind::Enum { count: grid_cases().len() as u64 } },
             Sub { name: "complex", kind: SubKind::Enum { count: complex_cases().len() as u64 } },
+            Sub { name: "fact-recurrence", kind: SubKind::Enum { count: 3 * RECUR_ARGS.len() as u64 } },
             Sub { name: "random", kind: SubKind::Random { cases: tier.pick(600_000, 30_000_000), len: 24 } },
         ]
     }
     fn gen_enum(&self, sub: &str, idx: u64, _tier: Tier) -> Option<Case> {
         if sub == "complex" {
             return complex_cases().get(idx as usize).cloned();
+        }
+        if sub == "fact-recurrence" {
+            let ev = [Ev::Dec, Ev::F64, Ev::Num][(idx % 3) as usize];
+            let k = (idx / 3) as usize % RECUR_ARGS.len();
+            if ev != Ev::Dec && k < 12 {
+                // next to a pole the double nearest to the decimal argument is already a different argument (Gamma magnifies
+                // 4e-16 to 4e-8 there) and x-1 is rounded separately: only the decimal evaluator reads these exactly
+                return None;
+            }
+            let x = RECUR_ARGS[k];
+            let mut case = Case::new(ev, format!("({})!", x), Val::default_for(ev));
+            case.aux = vec!["recurrence".into(), x.to_string()];
+            return Some(case);
         }
         grid_cases().get(idx as usize).cloned()
     }
@@ -433,6 +453,36 @@ impl Prop for C10Prop {
         Some(case)
     }
     fn check(&self, sub: &str, case: &Case, sc: &mut ShardCtx) -> Result<(), Failure> {
+        if sub == "fact-recurrence" {
+            // x! = x*(x-1)! evaluated by the evaluator itself: if both factorials are within 1e-9 of Gamma the two sides agree
+            // within 2.5e-9. Decides arguments next to the poles, where a double reference cannot (the decimal argument is not
+            // a double and Gamma magnifies the difference)
+            let x = rust_decimal::Decimal::from_str_exact(&case.aux[1]).map_err(|_| Failure::new("harness/bad-case", "", ""))?;
+            let xm1 = x - rust_decimal::Decimal::ONE;
+            let ev = case.ev;
+            let (a, b) = (format!("({})!", x), format!("({})*(({})!)", x, xm1));
+            let (oa, ob) = match (eval_normal(sc, ev, &a, &case.ph), eval_normal(sc, ev, &b, &case.ph)) {
+                (Some(p), Some(q)) => (p, q),
+                _ => return Ok(()),
+            };
+            let (va, vb) = match (&oa, &ob) {
+                (Outcome::Ok(p), Outcome::Ok(q)) => (p.as_f64(), q.as_f64()),
+                _ => {
+                    sc.exclude("a side is Err (not representable)");
+                    return Ok(());
+                }
+            };
+            if !(va.is_finite() && vb.is_finite()) || va.abs() < 1e-15 || va.abs() > 1e25 {
+                sc.exclude("not finite / not representable with 1e-9 relative accuracy");
+                return Ok(());
+            }
+            if (va - vb).abs() > 2.5e-9 * va.abs() {
+                return Err(Failure::new(format!("{}/function/fact:recurrence", ev.name()), format!("x! = x*(x-1)! within 2.5e-9 relative (right side {:?})", vb), format!("{} (left side, x = {})", oa.show(), x)));
+            }
+            sc.class(&format!("{}:fact recurrence", ev.name()));
+            sc.nontrivial(case.hash(), || sample(case, &oa.show()));
+            return Ok(());
+        }
         if sub == "complex" {
             // eval_complex offers these names too: principal-branch definitions (C08's reference and tolerance)
             return super::c08::C08.check("root", case, sc);
